@@ -46,8 +46,27 @@ def validate(rep, pid, sub, gen_args, heap="6g", max_violations=12, stateful=Fal
     for k in rep.known.get("known", []):
         if k.get("property") == pid and k.get("id"):
             env["KNOWN_" + k["id"]] = "1"
-    bad, st, tr, matched = validate_trace("SolarTrace", "SolarTrace.cfg", trace, n, heap=heap, env=env,
-                                          max_violations=max_violations, resync=resync, timeout=timeout)
+    # large stateless traces are validated in chunks (TLC holds the deserialised trace in memory)
+    CH = 60000
+    if n > CH and not stateful:
+        bad, st, tr, matched = [], 0, 0, 0
+        with open(trace) as f:
+            lines = f.readlines()
+        for c0 in range(0, n, CH):
+            part = trace + f".part{c0 // CH}"
+            with open(part, "w") as f:
+                f.writelines(lines[c0:c0 + CH])
+            m = min(CH, n - c0)
+            b, s1, t1, m1 = validate_trace("SolarTrace", "SolarTrace.cfg", part, m, heap=heap, env=env,
+                                           max_violations=max_violations, timeout=timeout)
+            os.remove(part)
+            bad += [c0 + i for i in b]
+            st, tr, matched = st + s1, tr + t1, matched + m1
+            if len(bad) >= max_violations:
+                break
+    else:
+        bad, st, tr, matched = validate_trace("SolarTrace", "SolarTrace.cfg", trace, n, heap=heap, env=env,
+                                              max_violations=max_violations, resync=resync, timeout=timeout)
     for fid, idxs in getattr(validate_trace, "known_hits", {}).items():
         k = [x for x in rep.known.get("known", []) if x.get("id") == fid]
         if k:
